@@ -350,6 +350,14 @@ class IOPort(BaseIOPort):
     def _receive(self, block=True):
         return self.input.receive(block=block)
 
+    def receive(self, block=True):
+        """Return the next message from the input port.
+
+        The wrapper has no lock of its own, so the shared message queue
+        is only ever accessed by the input port, under its lock.
+        """
+        return self.input.receive(block=block)
+
 
 class EchoPort(BaseIOPort):
     def _send(self, message):
